@@ -125,10 +125,20 @@ func (r *Run) Replaying() bool { return r.replaying }
 
 // Pick chooses a count by tier. Tiers differ in counts, never in time budgets.
 func (r *Run) Pick(quick, thorough int) int {
+	n := thorough
 	if r.Quick() {
-		return quick
+		n = quick
 	}
-	return thorough
+	// VERIF_SCALE is a development aid (never set by registered commands): scales every count.
+	if s := os.Getenv("VERIF_SCALE"); s != "" {
+		if f, err := strconv.ParseFloat(s, 64); err == nil && f > 0 {
+			n = int(float64(n) * f)
+			if n < 1 {
+				n = 1
+			}
+		}
+	}
+	return n
 }
 
 func splitmix(x uint64) uint64 {
